@@ -319,6 +319,9 @@ def run(tier, seed, model_ok, translator, search=False):
             res = one_case(case, scratch / str(idx), out, model_ok and not search, order)
             shutil.rmtree(scratch / str(idx), ignore_errors=True)
             out.evaluations += 1
+            if len(out.failures) >= 25:
+                out.notes.append("stopped generating after 25 oracle failures")
+                break
             if res is None:
                 continue
             if idx in (3, 80) or (len(out.samples) < 2 and res["ntables"] >= 3):
